@@ -6,10 +6,12 @@ use serde_json::{json, Value};
 use temporal_rs::options::*;
 use temporal_rs::*;
 
+fn td(a: &Value) -> bool { a.get("via").and_then(|v| v.as_str()) == Some("td") }
 pub fn exec(op: &str, a: &Value) -> Option<Value> {
     Some(match op {
-        "PlainTime.add" => run(|| arg_time(&a["recv"])?.add(&arg_duration(&a["dur"])?), p_time),
-        "PlainTime.subtract" => run(|| arg_time(&a["recv"])?.subtract(&arg_duration(&a["dur"])?), p_time),
+        // "via": "td" = the twin entry points that take the time part alone
+        "PlainTime.add" => run(|| if td(a) { arg_time(&a["recv"])?.add_time_duration(arg_duration(&a["dur"])?.time()) } else { arg_time(&a["recv"])?.add(&arg_duration(&a["dur"])?) }, p_time),
+        "PlainTime.subtract" => run(|| if td(a) { arg_time(&a["recv"])?.subtract_time_duration(arg_duration(&a["dur"])?.time()) } else { arg_time(&a["recv"])?.subtract(&arg_duration(&a["dur"])?) }, p_time),
         "PlainTime.until" => run(|| arg_time(&a["recv"])?.until(&arg_time(&a["other"])?, arg_settings(&a["st"])?), p_duration),
         "PlainTime.since" => run(|| arg_time(&a["recv"])?.since(&arg_time(&a["other"])?, arg_settings(&a["st"])?), p_duration),
         "PlainTime.round" => run(|| {
@@ -17,8 +19,8 @@ pub fn exec(op: &str, a: &Value) -> Option<Value> {
             arg_time(&a["recv"])?.round(arg_unit(js::s(st, "smallest")), st.get("inc").and_then(|x| x.as_i64()).map(|x| x as f64), js::opt_s(st, "mode").map(arg_mode))
         }, p_time),
         "Instant.new" => run(|| arg_instant(&a["ns"]), p_instant),
-        "Instant.add" => run(|| arg_instant(&a["recv"])?.add(arg_duration(&a["dur"])?), p_instant),
-        "Instant.subtract" => run(|| arg_instant(&a["recv"])?.subtract(arg_duration(&a["dur"])?), p_instant),
+        "Instant.add" => run(|| if td(a) { arg_instant(&a["recv"])?.add_time_duration(arg_duration(&a["dur"])?.time()) } else { arg_instant(&a["recv"])?.add(arg_duration(&a["dur"])?) }, p_instant),
+        "Instant.subtract" => run(|| if td(a) { arg_instant(&a["recv"])?.subtract_time_duration(arg_duration(&a["dur"])?.time()) } else { arg_instant(&a["recv"])?.subtract(arg_duration(&a["dur"])?) }, p_instant),
         "Instant.until" => run(|| arg_instant(&a["recv"])?.until(&arg_instant(&a["other"])?, arg_settings(&a["st"])?), p_duration),
         "Instant.since" => run(|| arg_instant(&a["recv"])?.since(&arg_instant(&a["other"])?, arg_settings(&a["st"])?), p_duration),
         "Instant.round" => run(|| arg_instant(&a["recv"])?.round(arg_rounding(&a["st"])?), p_instant),
